@@ -715,6 +715,96 @@ async fn exec<const N: usize>(st: &mut St<N>, ctx: &mut Ctx, toks: &[&str]) {
             tokio::time::sleep(Duration::from_millis(130)).await;
             ctx.emit(line);
         }
+
+        ("par", _) => {
+            // concurrent clients: `par tasks=T ops=O keys=Kn seed=S kinds=WRDCM base=TS`
+            // every client is a SPAWNED task running O operations chosen by a deterministic LCG; timestamps are
+            // globally unique (base + task*1000 + i); invocation/response order is recorded with a global counter
+            use std::sync::atomic::{AtomicU64, Ordering};
+            use std::sync::Arc;
+            let storage = match st.storage.take() { Some(s) => Arc::new(s), None => { ctx.emit("par NoStorage"); return; } };
+            let mut tasks = 4usize; let mut ops = 10usize; let mut nkeys = 2usize; let mut seed = 1u64; let mut kinds = "WRD".to_string(); let mut base = 1000u64;
+            for tok in a {
+                let (k, v) = tok.split_once('=').unwrap();
+                match k { "tasks" => tasks = v.parse().unwrap(), "ops" => ops = v.parse().unwrap(), "keys" => nkeys = v.parse().unwrap(),
+                          "seed" => seed = v.parse().unwrap(), "kinds" => kinds = v.to_string(), "base" => base = v.parse().unwrap(), _ => {} }
+            }
+            let clock = Arc::new(AtomicU64::new(0));
+            // payloads written earlier in the script use seed == timestamp by convention of the par scripts
+            let known: Arc<std::sync::Mutex<HashMap<(usize, u32), u64>>> = Arc::new(std::sync::Mutex::new(st.written.clone()));
+            let kinds: Vec<char> = kinds.chars().collect();
+            let mut handles = Vec::new();
+            for t in 0..tasks {
+                let clock = clock.clone();
+                let kinds = kinds.clone();
+                let known = known.clone();
+                let s = storage.clone();
+                handles.push(tokio::spawn(async move {
+                    let mk_key = |i: usize| { let mut b = vec![0u8; N]; b[N - 1] = (i + 1) as u8; ArrayKey::<N>::from(b) };
+                    let mut log: Vec<String> = Vec::new();
+                    let mut x = seed.wrapping_mul(6364136223846793005).wrapping_add((t as u64).wrapping_mul(1442695040888963407).wrapping_add(1));
+                    for i in 0..ops {
+                        x = x.wrapping_mul(6364136223846793005).wrapping_add(1442695040888963407);
+                        let kind = kinds[((x >> 33) as usize) % kinds.len()];
+                        let ki = ((x >> 20) as usize) % nkeys;
+                        let key = mk_key(ki);
+                        let ts = base + (t as u64) * 1000 + i as u64;
+                        let inv = clock.fetch_add(1, Ordering::SeqCst);
+                        let res = match kind {
+                            'W' => {
+                                let len = [5usize, 8, 40, 5000][((x >> 10) as usize) % 4];
+                                let data = gen_data(ts, len);
+                                known.lock().unwrap().insert((len, crc32c(&data)), ts);
+                                match s.write(&key, Bytes::from(data), BlobRecordTimestamp::new(ts)).await { Ok(()) => format!("W:{}:{}:{}:ok", ki, ts, len), Err(e) => format!("W:{}:{}:{}:Err_{}", ki, ts, len, err_class(&e)) }
+                            }
+                            'D' => match s.delete(&key, BlobRecordTimestamp::new(ts), ((x >> 5) & 1) == 1).await { Ok(n) => format!("D:{}:{}:{}:ok", ki, ts, n), Err(e) => format!("D:{}:{}:0:Err_{}", ki, ts, err_class(&e)) },
+                            'R' => match s.read(&key).await {
+                                Ok(ReadResult::Found(d)) => {
+                                    // which write produced these bytes? (a torn or foreign payload is reported as ts 0)
+                                    let ts_of = known.lock().unwrap().get(&(d.len(), crc32c(&d))).cloned().filter(|t| gen_data(*t, d.len()) == d).unwrap_or(0);
+                                    format!("R:{}:F:{}:{}", ki, ts_of, d.len())
+                                }
+                                Ok(ReadResult::Deleted(t)) => format!("R:{}:X:{}:0", ki, Into::<u64>::into(t)),
+                                Ok(ReadResult::NotFound) => format!("R:{}:N:0:0", ki),
+                                Err(e) => format!("R:{}:Err_{}:0:0", ki, err_class(&e)),
+                            },
+                            'C' => match s.contains(&key).await {
+                                Ok(ReadResult::Found(t)) => format!("C:{}:F:{}:0", ki, Into::<u64>::into(t)),
+                                Ok(ReadResult::Deleted(t)) => format!("C:{}:X:{}:0", ki, Into::<u64>::into(t)),
+                                Ok(ReadResult::NotFound) => format!("C:{}:N:0:0", ki),
+                                Err(e) => format!("C:{}:Err_{}:0:0", ki, err_class(&e)),
+                            },
+                            'M' => {
+                                match (x >> 7) % 3 { 0 => { let _ = s.try_close_active_blob().await; } 1 => { s.force_update_active_blob(|_| true).await; } _ => { let _ = s.free_excess_resources().await; } }
+                                "M:0:0:0:ok".to_string()
+                            }
+                            _ => "?".to_string(),
+                        };
+                        let ret = clock.fetch_add(1, Ordering::SeqCst);
+                        log.push(format!("{}/{}/{}/{}", t, inv, ret, res));
+                        if (x >> 3) % 4 == 0 { tokio::task::yield_now().await; }
+                    }
+                    log
+                }));
+            }
+            let all = tokio::time::timeout(Duration::from_secs(15), futures::future::join_all(handles)).await;
+            for ((len, crc), ts) in known.lock().unwrap().iter() {
+                st.written.insert((*len, *crc), *ts);
+            }
+            match all {
+                Ok(logs) => {
+                    let mut evs: Vec<String> = logs.into_iter().filter_map(|r| r.ok()).flatten().collect();
+                    evs.sort_by_key(|e| e.split('/').nth(1).unwrap().parse::<u64>().unwrap());
+                    ctx.emit(format!("par {}", evs.join(" ")));
+                    match Arc::try_unwrap(storage) { Ok(s) => st.storage = Some(s), Err(_) => ctx.emit("HARNESS-ERROR storage still shared") }
+                }
+                Err(_) => {
+                    // stuck clients keep their references: the storage object is abandoned
+                    std::mem::forget(storage);
+                    ctx.emit("par Timeout");
+                }
+            }
+        }
         ("bloom", _) => crate::bloom_cmds::cmd_bloom(ctx, a).await,
         ("hier", _) => crate::hier_cmds::cmd_hier::<N>(ctx, a).await,
         #[cfg(pearl_verif)]
@@ -742,7 +832,7 @@ pub fn run_script<const N: usize>(script: &str) -> String {
     let rt = if cfg.runtime_ct {
         tokio::runtime::Builder::new_current_thread().enable_all().build().unwrap()
     } else {
-        tokio::runtime::Builder::new_multi_thread().worker_threads(2).enable_all().build().unwrap()
+        tokio::runtime::Builder::new_multi_thread().worker_threads(4).enable_all().build().unwrap()
     };
     #[cfg(pearl_verif)]
     {
